@@ -63,6 +63,7 @@ inductive Stmt
   | ret1 (a : Expr)
   | ret2 (a b : Expr)
   | append (arr : String) (e : Expr)            -- `xs = append(xs, e)`
+  | appendRec (arr : String) (fields : List (String × Expr))   -- `xs = append(xs, v)` for a struct value v: field by field
   /-- a call as a statement: `d0, d1 := fn(args)`, `fn(args)`, or — with `fn = "$dyn"` and the function value as first
   argument — `d0 := f(args)` for a local function value `f`. The arguments are logged (slice `fn`), the results come
   from the oracle, and when `pfn ≠ ""` the oracle `pfn` decides whether the callee panics. -/
@@ -449,6 +450,8 @@ def exec (ext : Ext F) : Nat → Stmt → State F → Outcome F
   | _, .ret1 a, s => bindS (evalE ext a s) fun v s1 => .returned [v] s1
   | _, .ret2 a b, s => bindS (evalE ext a s) fun va s1 => bindS (evalE ext b s1) fun vb s2 => .returned [va, vb] s2
   | _, .append arr e, s => bindS (evalE ext e s) fun v s1 => .normal ((s1.push arr [("", v)]).set arr .nonNil)
+  | _, .appendRec arr fields, s => bindL (evalL ext (fields.map (·.2)) s) fun vs s1 =>
+      .normal ((s1.push arr ((fields.map (·.1)).zip vs)).set arr .nonNil)
   | _, .callS dsts fn pfn args, s => bindL (evalL ext args s) fun vs s1 =>
       let n := s1.ncalls fn
       let s2 := (s1.bump fn).push fn (argKeys.zip vs)
@@ -756,6 +759,9 @@ theorem evalE_bin_gen (op : BinOp) (h1 : op ≠ .land) (h2 : op ≠ .lor) (a b :
     .error w := by simp [exec]
 @[minigo] theorem exec_append (fuel : Nat) (arr : String) (e : Expr) : exec ext fuel (.append arr e) σ =
     bindS (evalE ext e σ) fun v s1 => .normal ((s1.push arr [("", v)]).set arr .nonNil) := by simp [exec]
+@[minigo] theorem exec_appendRec (fuel : Nat) (arr : String) (fields : List (String × Expr)) :
+    exec ext fuel (.appendRec arr fields) σ = bindL (evalL ext (fields.map (·.2)) σ) fun vs s1 =>
+      .normal ((s1.push arr ((fields.map (·.1)).zip vs)).set arr .nonNil) := by simp [exec]
 @[minigo] theorem exec_callS (fuel : Nat) (dsts : List String) (fn pfn : String) (args : List Expr) :
     exec ext fuel (.callS dsts fn pfn args) σ = bindL (evalL ext args σ) fun vs s1 =>
       if pfn ≠ "" ∧ isTrue (ext pfn (s1.ncalls fn) vs) = true then .panicked ((s1.bump fn).push fn (argKeys.zip vs))
@@ -818,6 +824,7 @@ def atomicOps : Stmt → List String
   | .while c b => atomicOpsE c ++ atomicOps b
   | .ret2 a b => atomicOpsE a ++ atomicOpsE b
   | .append _ e => atomicOpsE e
+  | .appendRec _ fs => (fs.map fun f => atomicOpsE f.2).flatten
   | .callS _ fn _ args => (args.map atomicOpsE).flatten ++ ["call " ++ fn]
   | _ => []
 
